@@ -13,7 +13,9 @@ DEFAULTS = TG.T("struct", f=[F_("Port", "port", TG.T("int"), "min=1"), F_("Host"
 OUTER = TG.T("struct", f=[F_("R", "r", RANGE), F_("P", "p", TG.T("ptr", e=PTR)), F_("L", "l", TG.T("slice", e=RANGE)),
                           F_("M", "m", TG.T("map", e=RANGE)), F_("N", "n", TG.T("int")), F_("Q", "q", PTR)])
 WITHDEFAULTS = TG.T("struct", f=[F_("D", "d", DEFAULTS), F_("R", "r", RANGE), F_("K", "k", TG.T("int"))])
-CATALOG = {"Range": RANGE, "Ptr": PTR, "Defaults": DEFAULTS, "Outer": OUTER, "WithDefaults": WITHDEFAULTS}
+TAGGED = TG.T("struct", f=[F_("Tags", "tags", TG.T("slice", e=TG.T("string"))), F_("Labels", "labels", TG.T("map", e=TG.T("string"))), F_("N", "n", TG.T("int")),
+                          F_("Inner", "inner", TG.T("map", e=TG.T("struct", f=[F_("T", "t", TG.T("slice", e=TG.T("string")))])))])
+CATALOG = {"Tagged": TAGGED, "Range": RANGE, "Ptr": PTR, "Defaults": DEFAULTS, "Outer": OUTER, "WithDefaults": WITHDEFAULTS}
 
 
 def range_cfg(rng, bad=False):
@@ -45,8 +47,10 @@ def defaults_cfg(rng, bad=False):
 
 
 def cat_case(rng):
-    cat = rng.wpick([(2, "Range"), (2, "Ptr"), (2, "Defaults"), (6, "Outer"), (3, "WithDefaults")])
+    cat = rng.wpick([(2, "Range"), (2, "Ptr"), (2, "Defaults"), (6, "Outer"), (3, "WithDefaults"), (4, "Tagged")])
     ty = CATALOG[cat]
+    if cat == "Tagged":
+        return tagged_case(rng)
     spots = {"Range": ["self"], "Ptr": ["self"], "Defaults": ["self"], "Outer": ["r", "p", "l", "m", "n", "q"], "WithDefaults": ["d", "r"]}[cat]
     badspot = rng.pick(spots) if rng.chance(0.45) else None
     if cat == "Range": cfg = range_cfg(rng, badspot == "self")
@@ -78,6 +82,26 @@ def cat_case(rng):
     uopts = [opt(rng.pick(["Append", "Prepend", "Replace", "ReplaceArr"]))] if rng.chance(0.15) else []
     return {"k": "catalog", "cat": cat, "ty": ty, "old": old, "from": cfg, "copts": [], "uopts": uopts,
             "_tag": "catalog/" + cat, "_nt": True, "_sig": "cat|%s|%s|%s|%s" % (cat, badspot, "old" if old else "zero", ",".join(sorted(k for k, _ in cfg["m"])))}
+
+
+def tagged_case(rng):
+    """named slice / map types with Validate: mentioned (non-empty or empty) or left as they are (nil, empty or filled)"""
+    def tags(): return A([S("t%d" % i) for i in range(rng.below(3))])
+    def labels(): return M([("l%d" % i, S("v")) for i in range(rng.below(3))])
+    kv = []
+    if rng.chance(0.5): kv.append(("tags", tags()))
+    if rng.chance(0.5): kv.append(("labels", labels()))
+    if rng.chance(0.6): kv.append(("n", U(rng.below(5))))
+    if rng.chance(0.4): kv.append(("inner", M([("k%d" % i, M([("t", tags())] if rng.chance(0.7) else [])) for i in range(1 + rng.below(2))])))
+    cfg = M(rng.shuffle(kv))
+    old = None
+    if rng.chance(0.7):
+        def otags(): return rng.pick([{"sl": None}, {"sl": []}, {"sl": [{"s": "d"}]}, {"sl": [{"s": "d"}, {"s": "e"}]}])
+        def olabels(): return rng.pick([{"mp": None}, {"mp": {}}, {"mp": {"a": {"s": "b"}}}])
+        inner = rng.pick([{"mp": None}, {"mp": {"p0": {"st": [otags()]}}}, {"mp": {"k0": {"st": [otags()]}, "p1": {"st": [otags()]}}}])
+        old = {"st": [otags(), olabels(), {"i": str(rng.below(3))}, inner]}
+    return {"k": "catalog", "cat": "Tagged", "ty": TAGGED, "old": old, "from": cfg, "copts": [], "uopts": [],
+            "_tag": "catalog/Tagged", "_nt": True, "_sig": "cat|Tagged|%s|%s" % ("old" if old else "zero", ",".join(sorted(k for k, _ in cfg["m"])))}
 
 
 def any_err(res):
